@@ -1,6 +1,9 @@
 Require Extraction.
 Require Import ExtrOcamlBasic.
-From LH Require Import Base.Bytes Base.Res Base.Utf8 Model.TextSync Spec.LspText.
+From LH Require Import Base.Bytes Base.Res Base.Utf8 Model.TextSync Spec.LspText Model.TextSyncUri Spec.LspTextUri.
 Extraction "c02model.ml" extract_anchor deployed_fixed offset_gen apply_changes trace
   utf8_of scalar is_astral no_astral no_lone_cr spec_offsets spec_step conformant_from
-  astral lone_cr stale enc_note enc_cache empty_cache.
+  astral lone_cr stale enc_note enc_cache empty_cache
+  deployed_uri_fixed deployed_save_fixed unescape strip_prefix uri_key init_prefix prefix2 prefix3 is_lua_key
+  utrace uspec_step uconformant_from uclass_ok_from ustale save_nil inj_on uris enc_unote enc_kcache kempty
+  canonical raw_pchar raw_unreserved.
